@@ -32,7 +32,7 @@ REAL = ["bec2format.bec2file (InitEccAuthBlock, EccEncryptor, EccDecryptor)", "b
         "ecdsa (keys, ecdh, ellipticcurve, util.randrange)", "pyaes"]
 STUBS = ["RNG: SimRng behind os.urandom shims", "key generation observer (register_PrivateEccKey)",
          "device model: RefP256 + RefAES", "openssl binary (thorough tier sample)"]
-PROBES = ["runs-with-assertions-disabled", "selector-changed-between-packs", "file-level-pack", "ext-encryptors-not-a-list", "shared-encryptor-two-threads", "keystore-decoys", "default-recipient", "selector-nonzero-default", "edge-recipient-scalar", "edge-ephemeral-scalar",
+PROBES = ["runs-with-assertions-disabled", "pack-after-unpack-same-object", "subclass-with-own-default-keys-used-first", "selector-changed-between-packs", "file-level-pack", "ext-encryptors-not-a-list", "shared-encryptor-two-threads", "keystore-decoys", "default-recipient", "selector-nonzero-default", "edge-recipient-scalar", "edge-ephemeral-scalar",
           "randrange-retry", "session-key-trailing-zero", "point-off-curve-rejected", "point-coordinate-ge-p",
           "point-zero", "point-negated-still-on-curve", "openssl-agrees"]
 THOROUGH_ONLY_PROBES = ["openssl-agrees"]
@@ -218,6 +218,16 @@ def run(case):
         if decoys:
             out.probes["keystore-decoys"] += 1
             ext = [e for e, _ in decoys] + ext
+        if case["recip"] is None and case["rng"] % 5 == 0:
+            # a test lab's subclass with its own default keys is used first (same selector): no business of the
+            # plain class
+            lab = prov.make_priv(env, 987654321 + sel)
+
+            class LabEcc(bf.EccEncryptor):
+                DEFAULT_PUBLIC_KEYS = {s_: lab.public_key.to_der_fmt() for s_ in range(4)}
+            LabEcc(sel).encrypt(bytes(16))
+            obs.generated.clear()
+            out.probes["subclass-with-own-default-keys-used-first"] += 1
         ndraw0 = len(rng.draws)
         kind_ = case.get("container", "list")
         if kind_ != "list":
@@ -333,6 +343,20 @@ def run(case):
             if k2 != skey or blk.key_selector != sel:
                 out.fail("C09.unpack", "differs", "unpack returned key %s selector %r (expected %s, %d)"
                          % (k2.hex(), blk.key_selector, skey.hex(), sel))
+            # read-modify-write with one list: the decryptor object that just unwrapped a block wraps the next one
+            try:
+                skey2 = bytes(b ^ 0x5A for b in skey)
+                raw3 = bf.InitEccAuthBlock(sel).pack(skey2, [dec])
+                k3r = prov.device_unwrap(bspec, 3, raw3)
+            except Exception as e:
+                out.fail("C09.device", "pack-after-unpack-" + type(e).__name__, "packing with the decryptor object that "
+                         "just unpacked a block failed: %s" % e)
+            else:
+                out.probes["pack-after-unpack-same-object"] += 1
+                if k3r != skey2:
+                    out.fail("C09.device", "pack-after-unpack-wrong-key", "a block packed with the EccDecryptor object "
+                             "that had just unpacked another block is not addressed to the recipient: the recipient "
+                             "recovers %s, session key is %s" % (k3r.hex(), skey2.hex()))
             # ---- faulted arm ----
             if case["damage"]:
                 dm = case["damage"]
